@@ -32,10 +32,10 @@ func (r *Rng) Intn(n int) int {
 	}
 	return int(r.U64() % uint64(n))
 }
-func (r *Rng) Range(lo, hi int) int { return lo + r.Intn(hi-lo+1) } // inclusive
-func (r *Rng) Bool() bool         { return r.U64()&1 == 1 }
+func (r *Rng) Range(lo, hi int) int     { return lo + r.Intn(hi-lo+1) } // inclusive
+func (r *Rng) Bool() bool               { return r.U64()&1 == 1 }
 func (r *Rng) Chance(num, den int) bool { return r.Intn(den) < num }
-func (r *Rng) Fork() *Rng         { return NewRng(r.U64()) }
+func (r *Rng) Fork() *Rng               { return NewRng(r.U64()) }
 func (r *Rng) Perm(n int) []int {
 	p := make([]int, n)
 	for i := range p {
@@ -101,6 +101,7 @@ func Opt(ok bool, v string) string {
 	return "None"
 }
 func Pair(a, b string) string { return "(" + a + ", " + b + ")" }
+
 // Str renders a Go string as a list of byte values (models never use Coq strings).
 func Bytes(b []byte) string {
 	it := make([]string, len(b))
@@ -149,17 +150,17 @@ type CaseMeta struct {
 
 type Writer struct {
 	dir, header, caseType, fn string
-	shardSize             int
-	cur                   []string
-	shard                 int
-	Meta                  []CaseMeta
-	Dist                  map[string]int
-	hashes                map[[32]byte]bool
-	Nontrivial            int
-	Evaluations           int
-	Samples               []interface{}
-	Notes                 map[string]interface{}
-	maxMeta               int
+	shardSize                 int
+	cur                       []string
+	shard                     int
+	Meta                      []CaseMeta
+	Dist                      map[string]int
+	hashes                    map[[32]byte]bool
+	Nontrivial                int
+	Evaluations               int
+	Samples                   []interface{}
+	Notes                     map[string]interface{}
+	maxMeta                   int
 }
 
 // NewWriter: header = Coq imports; caseType = Coq type of one case; fn = the Coq function
@@ -240,6 +241,16 @@ func (w *Writer) Close(o Opts, rule string) {
 		panic(err)
 	}
 	f.Close()
+}
+
+// Violation records a property violation that is decided outside Coq (race detector report, deadlock
+// watchdog, goroutine leak, out-of-bounds guard page ...). label/what form the known-finding signature.
+func (w *Writer) Violation(label, what string, detail interface{}) {
+	dv, _ := w.Notes["direct_violations"].([]interface{})
+	if len(dv) < 50 {
+		dv = append(dv, map[string]interface{}{"label": label, "what": what, "detail": detail})
+	}
+	w.Notes["direct_violations"] = dv
 }
 
 // Recover runs f and reports whether it panicked (and with what).
